@@ -892,7 +892,10 @@ def gen_struct_program(rng):
     pr.fns["mk"] = (["TT"], "Box<TT>", "TT x, int t", "  Box<TT> bx;\n  bx.v = x;\n  bx.tag = t;\n  return bx;")
     pr.fns["swapped"] = (["TT", "UU"], "Pair<UU, TT>", "Pair<TT, UU> pq",
                          "  Pair<UU, TT> r;\n  r.first = pq.second;\n  r.second = pq.first;\n  return r;")
-    pr.fn_order = ["unbox", "mk", "swapped"]
+    pr.fns["wrap"] = (["TT", "UU"], "int", "TT a, UU b",
+                      "  Pair<TT, UU> pq;\n  pq.first = a;\n  pq.second = b;\n  Box<Pair<TT, UU>> w;\n  w.v = pq;\n  w.tag = 3;\n"
+                      "  println(w.v.first, w.v.second);\n  return w.tag;")
+    pr.fn_order = ["unbox", "mk", "swapped", "wrap"]
     lines, k = [], 0
     prim = [t for t in ALL_TYPES if t != "P"]
     tys = rng.sample(ALL_TYPES, rng.randint(2, 5))
@@ -927,6 +930,10 @@ def gen_struct_program(rng):
             y, x, k, k, value_of(rng, y, []), k, value_of(rng, x, []), k, k)
         if rng.random() < 0.5:
             g += "\n  Pair<%s, %s> w%d = swapped<%s, %s>(q%d); println(w%d.first, w%d.second);" % (y, x, k, x, y, k, k, k)
+        if rng.random() < 0.5:
+            # the struct instances a generic function needs must occur in the source text (known finding
+            # C11-struct-instance-only-in-generic-fn): they are declared here first
+            g += "\n  Box<Pair<%s, %s>> z%d; println(wrap<%s, %s>(%s, %s));" % (x, y, k, x, y, value_of(rng, x, []), value_of(rng, y, []))
         acts.append(g)
     for ty in rng.sample([t for t in prim if t != "string"], rng.randint(1, 3)):
         k += 1
@@ -1124,17 +1131,28 @@ def classify_instance(o_tree, t_model, tparams, targs, pinned, multi_tuple, fn_n
             sc = [f for f in sc if f not in ("function_address_name", "is_function_address")]
     if sc:
         why.append("clone-scalars:" + ",".join(sc))
-    # a type parameter that survives in the instantiated tree
+    # a type parameter the recorded rewriting cannot reach (decided on the PARSER's tree and the recorded lists only, never on
+    # the current model output: a member that newly stays unrewritten must not be excused): the members in
+    # recorded_unrewritten (type_arguments of a nested generic call, new T), and spellings that are not a plain type
+    # expression (T[3], Pair<A, B>*) - except `T* p`, where the base type name, which is what is read, is a plain T
     rx = re.compile(r"\b(%s)\b" % "|".join(map(re.escape, tparams))) if tparams else None
-    if t_model is not None and rx:
-        for n in walk(t_model):
+    if rx:
+        for n in walk(o_tree):
             d = dict(n[1])
-            for f in TYPE_SCALARS:
-                if f in d and rx.search(d[f]):
-                    if f == "type_name" and d.get("is_pointer") == "1" and not rx.search(d.get("pointer_base_type_name", "")):
-                        continue      # `T* p`: the spelling keeps T, the base type name (which is what is read) is rewritten
-                    why.append("unrewritten:%s=%s" % (f, d[f]))
-                    break
+            hit = None
+            for f in pinned["recorded_unrewritten"]:
+                if f != "original_type_name" and f in d and rx.search(d[f]):
+                    hit = "unrewritten:%s=%s" % (f, d[f])
+            for f in pinned["recorded_subst_strings"]:
+                v = d.get(f, "")
+                if rx.search(v) and re.search(r"[*\[\]&_]|^\s|\s$", rx.sub("", v)):
+                    if f == "type_name" and d.get("is_pointer") == "1" and re.fullmatch(r"[A-Za-z]\w*\**", v.strip()) \
+                            and "*" not in d.get("pointer_base_type_name", ""):
+                        continue
+                    hit = "unrewritten:%s=%s" % (f, v)
+            if hit:
+                why.append(hit)
+                break
     # type_info recomputed from a non-basic plain type name (struct / enum / interface name)
     structy = [a for a in targs if a not in BASIC]
     for n in walk(o_tree):
@@ -1348,13 +1366,26 @@ def run(rep):
         m = batch([mbin], [req])[0]
         i = batch([leaf], [req])[0]
         return not compare_lines("x", req, m, i, defaults)
+    key_collision = None
+    if any(kind == "key" for kind, _, _, _ in bad_tree):
+        # turn a cache-key disagreement into its consequence: two different tuples with one key
+        cands = [("f", ["int", "long"]), ("f", ["int", "string"]), ("f", ["long", "int"]), ("f", ["int"]), ("g", ["int", "long"]),
+                 ("f", ["long", "long"])]
+        ks = batch([leaf], ["KEY %s %d %s" % (enc(f), len(a), " ".join(enc(x) for x in a)) for f, a in cands])
+        for (c1, k1), (c2, k2) in itertools.combinations(zip(cands, ks), 2):
+            if k1 == k2:
+                key_collision = "%s<%s> and %s<%s> get the same cache key %s" % (c1[0], ",".join(c1[1]), c2[0], ",".join(c2[1]), dec(k1[2:]))
+                break
     for kind, r, m, i in bad_tree[:3]:
         small = shrink_tree_request(r, tree_differs) if kind in ("inst", "clone", "subst", "name", "corpus") else r
         m2, i2 = batch([mbin], [small])[0], batch([leaf], [small])[0]
         rep.violation("corr-tree", {"request": small, "model": m2, "impl": i2, "origin": kind,
                                     "broken": "correspondence Model.{instantiate,clone,subst_node,generate_cache_key} = generic_instantiation.cpp "
                                               "(carrier of every C11 theorem)"},
-                      "generic_instantiation.cpp and the proved model disagree on a %s request (%d tokens)" % (kind, len(small.split())),
+                      "generic_instantiation.cpp and the proved model disagree on a %s request (%d tokens)%s" % (
+                          kind, len(small.split()),
+                          ("; " + key_collision + " (instances would be shared if the cache in call_impl.cpp were switched on; it is off, "
+                           "so no program shows it)") if kind == "key" and key_collision else ""),
                       no_failing_input=True)
     rep.coverage["tree_disagreements"] = len(bad_tree)
     lap("A synthetic trees")
